@@ -21,11 +21,22 @@ type TableInfo struct {
 	Queries    []QueryInfo  `json:"queries,omitempty"`
 }
 
+// QueryInfo describes a custom query comment:
+//
+//	form 0: UPDATE T SET <Set> = $val$ WHERE <Where> = $sel$
+//	form 1: UPDATE T SET <Set> = $val$ WHERE <Where> = $sel$ OR <Where2> = $sel$
+//	form 2: UPDATE T SET <Set> = $val$ WHERE (<Where> = $sel$ OR <Where2> = $sel$) AND <Where3> = $lim$
+//
+// The generated function takes one argument per distinct placeholder, in
+// order of first occurrence: val, sel[, lim].
 type QueryInfo struct {
-	Name  string   `json:"name"`
-	Set   string   `json:"set"`   // field assigned
-	Where string   `json:"where"` // field compared
-	Args  []string `json:"args"`  // argument order: field names
+	Name   string   `json:"name"`
+	Form   int      `json:"form"`
+	Set    string   `json:"set"`   // field assigned
+	Where  string   `json:"where"` // field compared
+	Where2 string   `json:"where2,omitempty"`
+	Where3 string   `json:"where3,omitempty"`
+	Args   []string `json:"args"` // argument order: field names
 }
 
 type ColumnInfo struct {
@@ -408,12 +419,12 @@ func (g *gen) sqlFiles() (*file, *file) {
 			t.SelectKeys = append(t.SelectKeys, k)
 			comments = append(comments, fmt.Sprintf("gomacro:SQL _SELECT KEY(%s)", strings.Join(k, ", ")))
 		}
-		if r.Chance(1, 5) {
-			// custom query: UPDATE T SET <a> = $v$ WHERE <b> = $w$
-			var simple []string
+		if r.Chance(1, 3) {
+			// custom query, see QueryInfo
+			var simple []ColumnInfo
 			for _, c := range t.Columns {
 				if c.Kind == "string" || c.Kind == "int" || c.Kind == "bool" {
-					simple = append(simple, c.Field)
+					simple = append(simple, c)
 				}
 			}
 			if len(simple) >= 2 {
@@ -421,13 +432,32 @@ func (g *gen) sqlFiles() (*file, *file) {
 				inUnique := false
 				for _, u := range t.Uniques {
 					for _, f := range u {
-						inUnique = inUnique || f == a
+						inUnique = inUnique || f == a.Field
 					}
 				}
 				if !inUnique {
-					q := QueryInfo{Name: "Set" + t.Name + a, Set: a, Where: b, Args: []string{a, b}}
+					q := QueryInfo{Name: "Set" + t.Name + a.Field, Set: a.Field, Where: b.Field, Args: []string{a.Field, b.Field}}
+					text := fmt.Sprintf("UPDATE %s SET %s = $val$ WHERE %s = $sel$;", t.Name, a.Field, b.Field)
+					// a second column of the same Go type allows the forms with a repeated placeholder
+					var twin *ColumnInfo
+					for i := range simple {
+						if simple[i].Field != b.Field && simple[i].GoType == b.GoType {
+							twin = &simple[i]
+						}
+					}
+					if twin != nil && r.Chance(2, 3) {
+						q.Where2 = twin.Field
+						q.Form = 1
+						text = fmt.Sprintf("UPDATE %s SET %s = $val$ WHERE %s = $sel$ OR %s = $sel$;", t.Name, a.Field, b.Field, twin.Field)
+						if r.Bool() {
+							third := simple[r.Intn(len(simple))]
+							q.Form, q.Where3 = 2, third.Field
+							q.Args = append(q.Args, third.Field)
+							text = fmt.Sprintf("UPDATE %s SET %s = $val$ WHERE (%s = $sel$ OR %s = $sel$) AND %s = $lim$;", t.Name, a.Field, b.Field, twin.Field, third.Field)
+						}
+					}
 					t.Queries = append(t.Queries, q)
-					comments = append(comments, fmt.Sprintf("gomacro:QUERY %s UPDATE %s SET %s = $val$ WHERE %s = $sel$;", q.Name, t.Name, a, b))
+					comments = append(comments, fmt.Sprintf("gomacro:QUERY %s %s", q.Name, text))
 				}
 			}
 		}
@@ -469,7 +499,7 @@ func (g *gen) sqlFiles() (*file, *file) {
 			} else {
 				c.GoType = target.IDType
 			}
-			if r.Chance(1, 5) && target.IDType == "int64" {
+			if r.Chance(1, 3) && target.IDType == "int64" {
 				c.GoType, c.Nullable = "sql.NullInt64", true
 				s.tf.useStd("database/sql")
 				tag = fmt.Sprintf("gomacro-sql-foreign:%q", target.Name)
